@@ -20,7 +20,12 @@ var (
 	customErrs = []error{errors.New("custom error 0"), errors.New("custom error 1"), errors.New("custom error 2")}
 )
 
-func tick(t int64) time.Time { return baseTime.Add(time.Duration(t) * time.Millisecond) }
+// tick maps an abstract instant to wall time: 100 microseconds (plus one nanosecond) per unit, so
+// that neighbouring instants fall into the same millisecond - a comparison at a coarser
+// resolution than time.Time's is visible.
+func tick(t int64) time.Time {
+	return baseTime.Add(time.Duration(t) * (100*time.Microsecond + time.Nanosecond))
+}
 
 func idOf(i int) (id [stun.TransactionIDSize]byte) {
 	// ids differ in a single bit so that comparisons on a truncated id would collide
@@ -131,7 +136,7 @@ func (r *agentRun) do(c ref.AgentCall) (ret string, events []ref.AgentEvent, tok
 	case "process":
 		r.msgToken++
 		token = r.msgToken
-		m := &stun.Message{TransactionID: idOf(c.ID)}
+		m := &stun.Message{TransactionID: idOf(c.ID), Type: stun.MessageType{Method: stun.MethodBinding, Class: stun.MessageClass(c.C & 3)}}
 		r.rec.mu.Lock()
 		r.rec.msgs[m] = token
 		r.rec.mu.Unlock()
@@ -180,7 +185,7 @@ func alphabet(ids int, times []int64) []ref.AgentCall {
 			out = append(out, ref.AgentCall{Op: "start", ID: id, T: t})
 		}
 		e := id%3 - 1 // -1 = StopWithError(id, nil)
-		out = append(out, ref.AgentCall{Op: "stop", ID: id}, ref.AgentCall{Op: "stoperr", ID: id, E: e}, ref.AgentCall{Op: "process", ID: id})
+		out = append(out, ref.AgentCall{Op: "stop", ID: id}, ref.AgentCall{Op: "stoperr", ID: id, E: e}, ref.AgentCall{Op: "process", ID: id, C: id + 1})
 	}
 	for _, t := range times {
 		out = append(out, ref.AgentCall{Op: "collect", T: t})
@@ -220,7 +225,7 @@ func nontrivialSeq(calls []ref.AgentCall) bool {
 func sigSeq(calls []ref.AgentCall) uint64 {
 	h := evid.NewH()
 	for _, c := range calls {
-		h.Str(c.Op).I(c.ID).U(uint64(c.T)).I(c.H).I(c.E)
+		h.Str(c.Op).I(c.ID).U(uint64(c.T)).I(c.H).I(c.E).I(c.C)
 	}
 
 	return h.Sum()
@@ -238,7 +243,7 @@ func c13Notes(rec *evid.Rec) {
 func TestC13_Exhaustive(t *testing.T) {
 	rec := evid.For("C13")
 	c13Notes(rec)
-	alpha := alphabet(3, []int64{10, 20, 30, 40})
+	alpha := alphabet(3, []int64{10, 11, 12, 13})
 	depth := evid.Pick(4, 5)
 	shard, nshards := evid.Shard()
 	loc := evid.NewLocal()
@@ -285,7 +290,7 @@ func TestC13_Exhaustive(t *testing.T) {
 func TestC13_States(t *testing.T) {
 	rec := evid.For("C13")
 	c13Notes(rec)
-	alpha := alphabet(3, []int64{10, 20, 30, 40})
+	alpha := alphabet(3, []int64{10, 11, 12, 13})
 	type node struct{ path []ref.AgentCall }
 	seen := map[string]node{}
 	start := ref.NewAgentModel(0)
@@ -329,8 +334,10 @@ func TestC13_Rapid(t *testing.T) {
 		switch op {
 		case "start":
 			c.ID, c.T = rapid.IntRange(0, 11).Draw(rt, "id"), int64(rapid.IntRange(0, 50).Draw(rt, "deadline"))
-		case "stop", "process":
+		case "stop":
 			c.ID = rapid.IntRange(0, 11).Draw(rt, "id")
+		case "process":
+			c.ID, c.C = rapid.IntRange(0, 11).Draw(rt, "id"), rapid.IntRange(0, 3).Draw(rt, "class")
 		case "stoperr":
 			c.ID, c.E = rapid.IntRange(0, 11).Draw(rt, "id"), rapid.IntRange(-1, 2).Draw(rt, "e")
 		case "collect":
